@@ -47,8 +47,23 @@ class Atom:
         return (self.elem, self.iso, self.chir, self.h, self.charge)
 
 
-def read_atom(tok):
+def read_atom(tok, ext=False):
     a = Atom()
+    if ext:
+        # opt-in OpenSMILES features selfies.encoder documents as unsupported: the wildcard atom and the tetrahedral class
+        # spelled out (@TH1 = @, @TH2 = @@)
+        if tok == "*":
+            a.text, a.cls, a.bracket, a.iso, a.chir, a.h, a.charge, a.elem, a.arom = tok, None, False, None, None, None, 0, "*", False
+            return a
+        tok2 = tok.replace("@TH1", "@").replace("@TH2", "@@")
+        if tok2.startswith("[") and "*" in tok2:
+            b = read_atom(tok2.replace("*", "Xx", 1))
+            b.elem, b.text = "*", tok
+            return b
+        if tok2 != tok:
+            b = read_atom(tok2)
+            b.text = tok
+            return b
     a.text = tok
     a.cls = None
     if tok[0] != "[":
@@ -87,7 +102,7 @@ def read_atom(tok):
     return a
 
 
-def read_smiles(s, tolerant=False, ring_across_dot=True, dot_in_branch=False):
+def read_smiles(s, tolerant=False, ring_across_dot=True, dot_in_branch=False, ext=False):
     """dot_in_branch: OpenSMILES allows '.' inside a parenthesised branch (the next atom is then not bonded to anything
     before it, the enclosing chain resumes at ')'); selfies.encoder documents that as unsupported, so it is only read when
     asked for"""
@@ -116,7 +131,7 @@ def read_smiles(s, tolerant=False, ring_across_dot=True, dot_in_branch=False):
             raise SmiError("ring bond symbol mismatch")
         order = None
         for x in syms:
-            order = BOND_ORDER[x]
+            order = 4 if x == "$" else BOND_ORDER[x]
         ea = [kind_a, b, order, sym_a if sym_a in MARKS else None]
         eb = [kind_b, a, order, sym_b if sym_b in MARKS else None]
         if slot_a is None:
@@ -127,7 +142,7 @@ def read_smiles(s, tolerant=False, ring_across_dot=True, dot_in_branch=False):
 
     while i < n:
         c = s[i]
-        if c in BOND_ORDER:
+        if c in BOND_ORDER or (ext and c == "$"):
             if pending is not None:
                 raise SmiError("double bond symbol")
             pending = c
@@ -203,7 +218,7 @@ def read_smiles(s, tolerant=False, ring_across_dot=True, dot_in_branch=False):
         else:
             tok = c
             i += 1
-        a = read_atom(tok)
+        a = read_atom(tok, ext)
         a.pos = start
         atoms.append(a)
         idx = len(atoms) - 1
